@@ -38,7 +38,12 @@ def sq_tol(kff, kgg, n, sigma):
 
 def hd(ctx, F, G, sigma):
     """persim.heat, required to be a finite non-negative real number."""
-    out = ctx.call(heat, arr(F), arr(G), sigma=sigma)
+    sig = sigma
+    if float(sigma).is_integer() and 1 <= sigma <= 30000 and (len(F) + len(G)) % 2 == 1:
+        # the same bandwidth held as the narrowest NumPy integer scalar (8 * sigma does not fit int8 from sigma = 16 on)
+        sig = next(t for t in (np.int8, np.uint8, np.int16) if sigma <= np.iinfo(t).max)(int(sigma))
+        ctx.label("sigma_as:" + type(sig).__name__)
+    out = ctx.call(heat, arr(F), arr(G), sigma=sig)
     ok = np.ndim(out) == 0 and not np.iscomplexobj(out)
     ctx.require(ok, "not_a_real_scalar", lambda: "heat returned %r" % (out,))
     v = float(out)
